@@ -1,5 +1,6 @@
 //! verif-harness: drives the real incan code for the correspondence checks.
 //! usage: verif-harness <property> <tier> <seed> <outfile> [extra...]
+mod c03;
 mod c04;
 mod c05;
 mod c06;
@@ -94,6 +95,10 @@ fn main() {
         "c20" => {
             let scratch = args.get(5).cloned().unwrap_or_else(|| "/verif/.build/scratch".to_string());
             c20::run(&mut out, tier, seed, &scratch)
+        }
+        "c03" => {
+            let scratch = args.get(5).cloned().unwrap_or_else(|| "/verif/.build/scratch".to_string());
+            c03::run(&mut out, tier, seed, &scratch)
         }
         "c13" => {
             let scratch = args.get(5).cloned().unwrap_or_else(|| "/verif/.build/scratch".to_string());
